@@ -67,8 +67,32 @@ type (
 		Binding  *syntax.BindStm
 		Mods     bool
 		Exp      syntax.Exp
+
+		// The names of the pipeline, call and binding at the time the edit
+		// was created.  Later edits (renames) modify the objects the pointers
+		// above refer to, but this edit is applied before them.
+		pipelineId, callId, bindingId string
 	}
 )
+
+func newEditBinding(pipe *syntax.Pipeline, call *syntax.CallStm,
+	binding *syntax.BindStm, mods bool, exp syntax.Exp) *editBinding {
+	e := &editBinding{
+		Pipeline:  pipe,
+		Call:      call,
+		Binding:   binding,
+		Mods:      mods,
+		Exp:       exp,
+		bindingId: binding.Id,
+	}
+	if pipe != nil {
+		e.pipelineId = pipe.Id
+	}
+	if call != nil {
+		e.callId = call.Id
+	}
+	return e
+}
 
 // Apply removes an input parameter from a callable in the given AST object.
 //
@@ -215,11 +239,11 @@ func (e removeMod) remove(mod *syntax.Modifiers) (int, error) {
 func (e editBinding) Apply(ast *syntax.Ast) (int, error) {
 	if e.Pipeline == nil && ast.Call != nil &&
 		e.Call.File().FullPath == ast.Call.File().FullPath &&
-		e.Call.Id == ast.Call.Id {
+		e.callId == ast.Call.Id {
 		return e.apply(ast.Call.Bindings.List), nil
 	}
 	for _, pipe := range ast.Pipelines {
-		if pipe.Id == e.Pipeline.Id &&
+		if pipe.Id == e.pipelineId &&
 			pipe.Node.File().FullPath == e.Pipeline.Node.File().FullPath {
 			if e.Call != nil {
 				return e.applyToCalls(pipe.Calls), nil
@@ -233,7 +257,7 @@ func (e editBinding) Apply(ast *syntax.Ast) (int, error) {
 
 func (e editBinding) applyToCalls(calls []*syntax.CallStm) int {
 	for _, call := range calls {
-		if call.Id == e.Call.Id {
+		if call.Id == e.callId {
 			if e.Mods {
 				return e.apply(call.Modifiers.Bindings.List)
 			} else {
@@ -246,7 +270,7 @@ func (e editBinding) applyToCalls(calls []*syntax.CallStm) int {
 
 func (e editBinding) apply(bindings []*syntax.BindStm) int {
 	for _, bind := range bindings {
-		if bind.Id == e.Binding.Id {
+		if bind.Id == e.bindingId {
 			bind.Exp = e.Exp
 			return 1
 		}
@@ -399,12 +423,7 @@ func removeRefFromBinding(edits editSet,
 	// Must edit the original AST here or else other edits will be operating on
 	// the incorrect expression.
 	binding.Exp = exp
-	return append(edits, &editBinding{
-		Pipeline: pipe,
-		Call:     call,
-		Binding:  binding,
-		Exp:      exp,
-	})
+	return append(edits, newEditBinding(pipe, call, binding, false, exp))
 }
 
 func removeRefFromExp(exp syntax.Exp,
